@@ -5,7 +5,7 @@
 From PV Require Import Engine EngineProofs.
 Open Scope string_scope.
 Notation RG := (list val -> option string -> option string -> st -> R).
-Notation RP := (string -> option (list val) -> option string -> option string -> st -> R).
+Notation RP := (string -> option (list string) -> option (list val) -> option string -> option string -> st -> R).
 
 (** steps execute in declaration order: running [a ++ b] is running [a], then — only if [a]
     completed normally — [b] on the state [a] left *)
@@ -80,26 +80,41 @@ Theorem C01_ok_returns_context : forall lib (rg : RG) (rp : RP) g gs names succe
 Proof. exact groups_body_ok. Qed.
 Print Assumptions C01_ok_returns_context.
 
-(** default groups steps / on_success / on_failure only when none of the three is given *)
-Theorem C01_defaults : forall (rg : RG) groups su fa s,
-  run_pipeline_inner rg groups su fa s =
-  match rg (effective_groups groups)
-           (if defaulted groups su fa then Some "on_success" else su)
-           (if defaulted groups su fa then Some "on_failure" else fa) s with
-  | (ORaise (RSig SStopPipeline), s1) => (OOk, s1)
+(** default groups steps / on_success / on_failure only when none of the three is given;
+    a failing context parser routes to the failure group and re-raises its own error *)
+Theorem C01_defaults : forall (rg : RG) (rfail : string -> st -> R) parser parse groups su fa s,
+  run_pipeline_inner rg rfail parser parse groups su fa s =
+  match prepare_context parser parse s with
+  | (OOk, s0) =>
+      match rg (effective_groups groups)
+               (if defaulted groups su fa then Some "on_success" else su)
+               (if defaulted groups su fa then Some "on_failure" else fa) s0 with
+      | (ORaise (RSig SStopPipeline), s1) => (OOk, s1)
+      | r => r
+      end
+  | (ORaise (RExn n m e), s0) =>
+      match (if defaulted groups su fa then Some "on_failure" else fa) with
+      | Some (String _ _ as fg) =>
+          match rfail fg s0 with
+          | (ORaise (RSig SStopStepGroup), s1) | (OOk, s1) => (ORaise (RExn n m e), s1)
+          | (ORaise (RSig SStopPipeline), s1) => (OOk, s1)
+          | r => r
+          end
+      | _ => (ORaise (RExn n m e), s0)
+      end
   | r => r
   end.
 Proof. exact run_pipeline_inner_unfold. Qed.
 Print Assumptions C01_defaults.
 
 Theorem C01_api_ok : forall fuel lib name d gs su fa j s1,
-  run_pipeline fuel lib name gs su fa (mkst d [] [] [] 0 j) = (OOk, s1) ->
+  run_pipeline fuel lib name None gs su fa (mkst d [] [] [] 0 j) = (OOk, s1) ->
   api_run fuel lib name d gs su fa j = (OOk, s1).
 Proof. exact api_run_ok. Qed.
 Print Assumptions C01_api_ok.
 
 Theorem C01_api_error : forall fuel lib name d gs su fa j s1 n m e,
-  run_pipeline fuel lib name gs su fa (mkst d [] [] [] 0 j) = (ORaise (RExn n m e), s1) ->
+  run_pipeline fuel lib name None gs su fa (mkst d [] [] [] 0 j) = (ORaise (RExn n m e), s1) ->
   api_run fuel lib name d gs su fa j = (ORaise (RExn n m e), s1).
 Proof. exact api_run_error. Qed.
 Print Assumptions C01_api_error.
